@@ -165,10 +165,13 @@ def run(tier, seed):
     if bad:
         # cross-property rule (DESIGN.md 2.4): an unexpected parser result is re-run once with an unbounded memo
         # table; if the discrepancy disappears it is a manifestation of the open C17 findings (D15), not of C02
-        again = execute([by_id[rid] for rid in bad], unbounded=True)
-        bad2, stats2 = vlib.tlc_validate("Grammar_Trace.tla", "Grammar_Trace.cfg", again, tag="c02u", shards=2)
-        v.add_tv("Grammar_Trace[unbounded memo]", stats2, len(again))
-        for rid in list(bad):
+        # ... only for the narrow signature of D15: a sentence REJECTED at the production capacity
+        cand = [rid for rid in bad if any("is not accepted" in x for x in bad[rid])]
+        again = execute([by_id[rid] for rid in cand], unbounded=True) if cand else []
+        bad2, stats2 = vlib.tlc_validate("Grammar_Trace.tla", "Grammar_Trace.cfg", again, tag="c02u", shards=2) if again else ({}, None)
+        if stats2:
+            v.add_tv("Grammar_Trace[unbounded memo]", stats2, len(again))
+        for rid in cand:
             if rid not in bad2:
                 v.known_finding("D15", "parser result at the production memo capacity differs from the unbounded-memo result (memoised guarded failure)",
                                 by_id[rid]["text"][:200], ["C17"])
